@@ -753,7 +753,22 @@ async fn main(plan: Plan) -> Outcome {
             sample_hist.push(ctx.clone());
         }
         if plan.speculative && s.idempotent {
-            // Speculative copies of an idempotent request are not retry decisions.
+            // Speculative copies of an idempotent request are not retry decisions. What
+            // still holds: all copies and their retries draw from one plan, which names
+            // every node once, so a node receives the request again only through a
+            // same-target decision (iterator kinds: per page, not judged here).
+            if s.kind < 5 || s.kind == 7 {
+                let same_target = decisions.iter().filter(|d| matches!(d.decision, RetryDecision::RetrySameTarget(_))).count();
+                for n in 0..plan.nodes {
+                    let to_n = frames.iter().filter(|f| f.node == n).count();
+                    if to_n > 1 + same_target {
+                        out.violation(
+                            "c06.same_node_without_decision",
+                            format!("node {n} received the request {to_n} times with {same_target} same-target decision(s) (speculative run): {ctx}"),
+                        );
+                    }
+                }
+            }
             continue;
         }
         if plan.forgetful {
